@@ -5,6 +5,7 @@ validator, nonce, competing claim), tallies with an arbitrary power table each, 
 validator-nonce catch-up and governance nonce overrides.
 -/
 import PalomaModel.Model.Oracle
+import PalomaModel.Gen.Consts
 
 namespace Paloma.Oracle
 open List
@@ -329,6 +330,15 @@ theorem competing_claims_exclusive (ops : List Op) (e₁ e₂ : Effect)
   · have := hlt i j hi hj h; omega
   · subst h; rfl
   · have := hlt j i hj hi h; omega
+
+/-- **threshold_as_in_source.** The constants the model's `tryAtt` uses (`> 66 * total / 100`) are
+the ones in the current source: `AttestationVotesPowerThreshold = 66`, strict `GT`, divisor 100
+(regenerated by the extractor on every run). -/
+theorem threshold_as_in_source :
+    Paloma.Gen.Consts.attestationVotesPowerThreshold = 66 ∧
+    Paloma.Gen.Consts.tryAttestationComparator = "GT" ∧
+    Paloma.Gen.Consts.tryAttestationDivisor = 100 ∧
+    Paloma.Gen.Consts.updateValidatorNoncesPeriod = 50 := by decide
 
 /-- **vote_requires_next_nonce.** A validator's vote is accepted only for exactly the nonce
 after its last one. -/
